@@ -1,4 +1,4 @@
-import OVM.IO.Ascii.RtFinal
+import OVM.IO.Ascii.RtDetect2
 /-
   C06, OVM-ASCII half.  Subject: `print` / `write` (lean/OVM/IO/Ascii/Print.lean, the model of
   `FileManager::writeStream`) and `parse` (lean/OVM/IO/Ascii/Parse.lean, the model of
@@ -33,6 +33,10 @@ import OVM.IO.Ascii.RtFinal
     * `roundtrip_props_set`        the same read as a statement about the *set* of properties
     * `second_roundtrip_same_bytes`, `second_roundtrip_fixpoint`   a second round trip changes nothing
     * `write_roundtrip`            the three combined on a `MeshView`
+    * `accepts_poly_nochk`         `Accepts` holds for every polyhedral mesh read without topology check
+    * `detect_written`             automatic type detection on a written file (`isTetrahedralMesh` /
+                                   `isHexahedralMesh`): true exactly when there are cells and every cell has
+                                   4 resp. 6 halffaces (that is all these functions look at)
 -/
 namespace OVM.Ascii
 
@@ -125,6 +129,13 @@ theorem second_roundtrip_fixpoint (cfg : Cfg) (F G : AFile) (hwf : WFTopo cfg.li
     (hp : WFProps cfg.lim F) (h : (parse cfg (print F)).res = .ok G) : (parse cfg (print G)).res = .ok G := by
   rw [second_roundtrip_same_bytes cfg F G hwf hacc hp h, h]
 
+/-- **C06 (automatic type detection)**: on a written file `isTetrahedralMesh` (`want = 4`) and
+    `isHexahedralMesh` (`want = 6`) answer "there is a cell and every cell has `want` halffaces". -/
+theorem detect_written (lim : Nat) (F : AFile) (hwf : WFTopo lim F) :
+    detect 4 (print F) = (!F.cells.isEmpty && F.cells.all (fun c => c.length == 4)) ∧
+    detect 6 (print F) = (!F.cells.isEmpty && F.cells.all (fun c => c.length == 6)) :=
+  ⟨detect_print lim 4 (by decide) F hwf, detect_print lim 6 (by decide) F hwf⟩
+
 /-- **C06, OVM-ASCII**: `writeStream` either refuses (pending deletions) or produces a text that
     `readStream` reads back as the mesh that was written. -/
 theorem write_roundtrip (cfg : Cfg) (m : MeshView) (hwf : WFTopo cfg.lim m.file) (hacc : Accepts cfg m.file)
@@ -213,6 +224,12 @@ example (chk : Bool) : (parse (cfgPoly chk) (print (tetFile []))).res = .ok (tet
   roundtrip_topology _ _ rfl (tet_wfTopo _) (tet_accepts_poly _ _)
 
 example : write ⟨tetFile tetProps, true⟩ = none := write_pending_refused _ rfl
+
+/-- the tetrahedron is detected as a tetrahedral and not as a hexahedral mesh -/
+example : detect 4 (print (tetFile tetProps)) = true ∧ detect 6 (print (tetFile tetProps)) = false := by
+  have h := detect_written 1000 (tetFile tetProps) (tet_wfTopo _)
+  rw [h.1, h.2]
+  decide
 
 /-- the order in which the seven properties come back -/
 example : (sortProps (tetFile tetProps)).props.map (fun p => (p.ent, p.name)) =
